@@ -53,12 +53,13 @@ type kase struct {
 	lines []string
 	f     *forest
 
-	byHash map[common.Hash]int
-	txID   map[common.Hash]int
-	txHash []common.Hash
-	rootID map[common.Hash]int
-	maxH   uint64
-	obsH   uint64 // heights 0..obsH are observed (fixed when the case is built)
+	byHash     map[common.Hash]int
+	txID       map[common.Hash]int
+	txHash     []common.Hash
+	rootID     map[common.Hash]int
+	maxH       uint64
+	expectHead int    // P expecthead <id>: the honest longer fork whose tip must be the head after all calls (0: none)
+	obsH       uint64 // heights 0..obsH are observed (fixed when the case is built)
 }
 
 func fakeHash(tag string, id int) common.Hash {
@@ -88,6 +89,7 @@ func (k *kase) register(n *node) {
 		n.txs = append(n.txs, id)
 	}
 	k.nodes[n.id] = n
+	k.f.hdrs[n.blk.Hash()] = n.blk.Header()
 	k.order = append(k.order, n.id)
 	k.byHash[n.blk.Hash()] = n.id
 	if n.num > k.maxH && n.num < 1000 {
@@ -107,8 +109,11 @@ func parseTxs(s string) ([]txSpec, error) {
 		}
 		a, e1 := strconv.Atoi(q[0])
 		b, e2 := strconv.Atoi(q[1])
+		if q[1] == "b" { // call of the BLOCKHASH contract
+			b, e2 = -1, nil
+		}
 		c, e3 := strconv.ParseInt(q[2], 10, 64)
-		if e1 != nil || e2 != nil || e3 != nil || a < 0 || a >= nKeys || b < 0 || b >= nKeys {
+		if e1 != nil || e2 != nil || e3 != nil || a < 0 || a >= nKeys || b < -1 || b >= nKeys {
 			return nil, fmt.Errorf("bad tx spec %q", p)
 		}
 		out = append(out, txSpec{a, b, c})
@@ -124,7 +129,13 @@ func buildCase(lines []string) (k *kase, err error) {
 			k, err = nil, fmt.Errorf("case does not build: %v", r)
 		}
 	}()
-	k = &kase{mode: "solo", nodes: map[int]*node{}, crash: map[int]bool{}, f: newForest(),
+	mode := "solo"
+	for _, l := range lines {
+		if f := strings.Fields(l); len(f) == 2 && f[0] == "MODE" {
+			mode = f[1]
+		}
+	}
+	k = &kase{mode: mode, nodes: map[int]*node{}, crash: map[int]bool{}, f: newForest(mode == "strict"),
 		byHash: map[common.Hash]int{}, txID: map[common.Hash]int{}, rootID: map[common.Hash]int{}}
 	g := &node{id: 0, parent: -1, base: 0, kind: "genesis", blk: k.f.genesis, txRootOK: true, execOK: true}
 	k.register(g)
@@ -148,6 +159,9 @@ func buildInto(k *kase, l string) (*kase, error) {
 	case "MODE":
 		k.mode = f[1]
 	case "P":
+		if len(f) == 3 && f[1] == "expecthead" {
+			k.expectHead, _ = strconv.Atoi(f[2])
+		}
 	case "N":
 		if len(f) != 6 {
 			return k, fmt.Errorf("bad N line %q", l)
@@ -221,6 +235,11 @@ func buildInto(k *kase, l string) (*kase, error) {
 			n.blk = reheader(bn.blk, func(h *types.Header) { h.ParentHash = npn.blk.Hash() })
 			n.parent = np
 			n.older = bn.blk.Time() <= npn.blk.Time()
+			for _, tx := range bn.blk.Transactions() {
+				if tx.To() != nil && *tx.To() == bhAddr {
+					n.execOK = false // BLOCKHASH(number-1) is now another hash: the claimed state root no longer fits
+				}
+			}
 		default:
 			return k, fmt.Errorf("unknown mutant kind %q", kind)
 		}
